@@ -3,6 +3,7 @@ package main
 import (
 	"fmt"
 	"go/token"
+	"go/types"
 	"sort"
 	"strings"
 
@@ -60,6 +61,210 @@ func (c *Ctx) rangeRegistrations(fn *ssa.Function, method string) []rangeReg {
 	return out
 }
 
+// regEvent is one registration call, in program order; calls made inside helper functions of the
+// module are included with the substitution of the helper's parameters by the caller's arguments.
+type regEvent struct {
+	call ssa.CallInstruction
+	args []ssa.Value
+	sub  []map[ssa.Value]ssa.Value // innermost first
+}
+
+func (e regEvent) resolve(v ssa.Value) ssa.Value {
+	for _, m := range e.sub {
+		if r, ok := m[v]; ok {
+			v = r
+		}
+	}
+	return v
+}
+
+// regEvents collects calls of the named methods in fn in block order, descending into statically
+// bound module helpers (assignEach(chars, state)) up to two levels.
+func (c *Ctx) regEvents(fn *ssa.Function, methods map[string]bool, depth int, sub []map[ssa.Value]ssa.Value) []regEvent {
+	var out []regEvent
+	for _, ci := range allCalls(fn) {
+		f := calleeObj(ci.Common())
+		if f != nil && methods[f.Name()] {
+			out = append(out, regEvent{call: ci, args: callArgs(ci.Common()), sub: sub})
+			continue
+		}
+		if g := ci.Common().StaticCallee(); g != nil && c.InModule(g) && g.Blocks != nil && depth > 0 && g != fn {
+			m := map[ssa.Value]ssa.Value{}
+			for i, p := range g.Params {
+				if i < len(ci.Common().Args) {
+					m[p] = ci.Common().Args[i]
+				}
+			}
+			inner := c.regEvents(g, methods, depth-1, append([]map[ssa.Value]ssa.Value{m}, sub...))
+			out = append(out, inner...)
+		}
+	}
+	return out
+}
+
+// csvClasses: the character classes a rune-valued argument of a registration can stand for:
+// "CR", "LF", "sep" (an element of the field separators), "quote" (an element of the quote symbols),
+// "#<k>" for another constant, "?" for anything else. Collections are followed through slice
+// literals, nested literals and range loops.
+func (c *Ctx) csvClasses(e regEvent, v ssa.Value, sepOf, quoteOf func(ssa.Value) bool, depth int) map[string]bool {
+	out := map[string]bool{}
+	if depth == 0 {
+		out["?"] = true
+		return out
+	}
+	v = e.resolve(stripConv(v))
+	add := func(m map[string]bool) {
+		for k := range m {
+			out[k] = true
+		}
+	}
+	if k, ok := constInt(v); ok {
+		switch k {
+		case 13:
+			out["CR"] = true
+		case 10:
+			out["LF"] = true
+		default:
+			out[fmt.Sprintf("#%d", k)] = true
+		}
+		return out
+	}
+	switch x := v.(type) {
+	case *ssa.Phi:
+		for _, ed := range x.Edges {
+			add(c.csvClasses(e, ed, sepOf, quoteOf, depth-1))
+		}
+		return out
+	case *ssa.UnOp:
+		if ia, ok := x.X.(*ssa.IndexAddr); ok && x.Op == token.MUL {
+			add(c.csvCollection(e, ia.X, sepOf, quoteOf, depth-1))
+			return out
+		}
+	}
+	out["?"] = true
+	return out
+}
+
+// csvCollection: classes of the elements of a collection of runes (or of a collection of such collections).
+func (c *Ctx) csvCollection(e regEvent, coll ssa.Value, sepOf, quoteOf func(ssa.Value) bool, depth int) map[string]bool {
+	out := map[string]bool{}
+	if depth == 0 {
+		out["?"] = true
+		return out
+	}
+	coll = e.resolve(coll)
+	switch {
+	case sepOf(coll):
+		out["sep"] = true
+		return out
+	case quoteOf(coll):
+		out["quote"] = true
+		return out
+	}
+	add := func(m map[string]bool) {
+		for k := range m {
+			out[k] = true
+		}
+	}
+	switch x := coll.(type) {
+	case *ssa.Slice:
+		if al, ok := x.X.(*ssa.Alloc); ok {
+			// a slice literal: the values stored into its backing array
+			n := 0
+			for _, r := range *al.Referrers() {
+				ia, ok := r.(*ssa.IndexAddr)
+				if !ok {
+					continue
+				}
+				for _, r2 := range *ia.Referrers() {
+					if st, ok := r2.(*ssa.Store); ok {
+						n++
+						if _, isSlice := st.Val.Type().Underlying().(*types.Slice); isSlice {
+							add(c.csvCollection(e, st.Val, sepOf, quoteOf, depth-1))
+						} else {
+							add(c.csvClasses(e, st.Val, sepOf, quoteOf, depth-1))
+						}
+					}
+				}
+			}
+			if n > 0 {
+				return out
+			}
+		}
+		add(c.csvCollection(e, x.X, sepOf, quoteOf, depth-1))
+		return out
+	case *ssa.UnOp:
+		// an element of a collection of collections (nested range loop)
+		if ia, ok := x.X.(*ssa.IndexAddr); ok && x.Op == token.MUL {
+			add(c.csvCollection(e, ia.X, sepOf, quoteOf, depth-1))
+			return out
+		}
+	case *ssa.Phi:
+		for _, ed := range x.Edges {
+			add(c.csvCollection(e, ed, sepOf, quoteOf, depth-1))
+		}
+		return out
+	}
+	out["?"] = true
+	return out
+}
+
+// foldCsvRegs folds range registrations (from, to, target) in program order under "the latest covering
+// registration wins" over the classes {CR, LF, sep, quote, other}.
+func (c *Ctx) foldCsvRegs(evs []regEvent, sepOf, quoteOf func(ssa.Value) bool, target func(regEvent) string) (map[string]string, string) {
+	final := map[string]string{}
+	pending := "" // a registration the fold cannot classify (forgotten again by a later Clear)
+	for _, ev := range evs {
+		if f := calleeObj(ev.call.Common()); f != nil && strings.HasPrefix(f.Name(), "Clear") {
+			final = map[string]string{} // the table is emptied: earlier registrations are gone
+			pending = ""
+			continue
+		}
+		if len(ev.args) < 3 {
+			continue
+		}
+		from := c.csvClasses(ev, ev.args[0], sepOf, quoteOf, 5)
+		to := c.csvClasses(ev, ev.args[1], sepOf, quoteOf, 5)
+		tg := target(ev)
+		lo, loK := constInt(ev.resolve(stripConv(ev.args[0])))
+		hi, hiK := constInt(ev.resolve(stripConv(ev.args[1])))
+		switch {
+		case loK && hiK && lo <= 10 && hi >= 0xfffe:
+			for _, cl := range []string{"CR", "LF", "sep", "quote", "other"} {
+				final[cl] = tg
+			}
+		case loK && hiK && lo == hi:
+			switch lo {
+			case 13:
+				final["CR"] = tg
+			case 10:
+				final["LF"] = tg
+			default:
+				pending = fmt.Sprintf("a registration for the single character %d", lo)
+			}
+		case loK && hiK:
+			pending = fmt.Sprintf("a registration for the range %d..%d", lo, hi)
+		default:
+			// element registrations: from and to must be the same element
+			if !c.sameValue(ev.resolve(stripConv(ev.args[0])), ev.resolve(stripConv(ev.args[1]))) || from["?"] || to["?"] {
+				pending = "a registration whose range the analysis cannot classify"
+				continue
+			}
+			for cl := range from {
+				if strings.HasPrefix(cl, "#") {
+					pending = "a registration for the constant character " + cl[1:]
+					continue
+				}
+				final[cl] = tg
+			}
+		}
+	}
+	if pending != "" {
+		return nil, pending
+	}
+	return final, ""
+}
+
 func init() {
 	register(&Rule{ID: "CSV.route", Floor: 6,
 		Doc: "CSV state table: everything is routed to the word state by a default registration that precedes the specific ones; CR, LF and every field separator go to the symbol state and every quote symbol to the quote state; the word state disables exactly those characters; the setters reject CR/LF/NUL and overlaps, rebuild the word state from the new configuration and re-assign the states; the four end-of-line spellings are Eol symbols; the symbol state's single-character fast path excludes CR and LF",
@@ -71,57 +276,76 @@ func ruleCsvRoute(c *Ctx) []*Obligation {
 	assign := c.MustFunc("csv", "CsvTokenizer", "AssignStates")
 	// (a) AssignStates
 	{
-		regs := c.rangeRegistrations(assign, "SetCharacterState")
 		key := c.FuncKey(assign) + "#routing"
-		var desc []string
-		for _, r := range regs {
-			loop := ""
-			if r.inLoop != "" {
-				loop = " for each of " + r.inLoop
-			}
-			desc = append(desc, fmt.Sprintf("[%s..%s]→%s%s", r.from, r.to, r.target, loop))
+		evs := c.regEvents(assign, map[string]bool{"SetCharacterState": true, "ClearCharacterStates": true}, 2, nil)
+		isField := func(name string) func(ssa.Value) bool {
+			return func(v ssa.Value) bool { return isFieldLoad(v, name) }
 		}
-		got := strings.Join(desc, "; ")
-		want := "[0..65535]→WordState; [13..13]→SymbolState; [10..10]→SymbolState; [elem..elem]→SymbolState for each of $0.fieldSeparators; [elem..elem]→QuoteState for each of $0.quoteSymbols"
-		wantAlt := strings.Replace(want, "[13..13]→SymbolState; [10..10]→SymbolState", "[10..10]→SymbolState; [13..13]→SymbolState", 1)
-		clearFirst := false
-		if calls := allCalls(assign); len(calls) > 0 {
-			if f := calleeObj(calls[0].Common()); f != nil && f.Name() == "ClearCharacterStates" {
-				clearFirst = true
+		target := func(ev regEvent) string {
+			v := ev.resolve(stripConv(ev.args[2]))
+			for i := 0; i < 4; i++ {
+				switch x := v.(type) {
+				case *ssa.MakeInterface:
+					v = ev.resolve(x.X)
+				case *ssa.ChangeInterface:
+					v = ev.resolve(x.X)
+				}
+			}
+			if call, ok := v.(*ssa.Call); ok {
+				if g := calleeObj(call.Common()); g != nil {
+					return g.Name()
+				}
+			}
+			return "?"
+		}
+		final, why := c.foldCsvRegs(evs, isField("fieldSeparators"), isField("quoteSymbols"), target)
+		clearFirst := true // a Clear call resets the folded table; without one, the leading full-range registration overrides everything older
+		want := map[string]string{"CR": "SymbolState", "LF": "SymbolState", "sep": "SymbolState", "quote": "QuoteState", "other": "WordState"}
+		var diffs []string
+		for _, cl := range []string{"CR", "LF", "sep", "quote", "other"} {
+			if final != nil && final[cl] != want[cl] {
+				diffs = append(diffs, fmt.Sprintf("%s → %s (expected %s)", cl, final[cl], want[cl]))
 			}
 		}
-		if (got == want || got == wantAlt) && clearFirst {
-			o.ok(key, c.Pos(assign.Pos()), got)
-		} else {
-			o.bad(key, c.Pos(assign.Pos()), "AssignStates registers {"+got+"} (clear first: "+fmt.Sprint(clearFirst)+"); expected the default word registration first, then CR, LF and each separator to the symbol state and each quote to the quote state — otherwise a separator, quote or line break inside/outside a field is classified wrongly")
+		switch {
+		case why != "":
+			o.undecided(key, c.Pos(assign.Pos()), "AssignStates contains "+why)
+		case len(diffs) > 0 || !clearFirst:
+			o.bad(key, c.Pos(assign.Pos()), "folding AssignStates' registrations (latest covering one wins; table cleared first: "+fmt.Sprint(clearFirst)+") gives "+strings.Join(diffs, ", ")+": a separator, quote or line break inside/outside a field is classified wrongly")
+		default:
+			o.ok(key, c.Pos(assign.Pos()), fmt.Sprintf("%d registration(s) fold to CR,LF,separators → symbol state; quotes → quote state; everything else → word state", len(evs)))
 		}
 	}
 	// (b) word state disables exactly the routed-away characters
 	{
 		ctor := c.MustFunc("csv", "", "NewCsvWordState")
-		regs := c.rangeRegistrations(ctor, "SetWordChars")
 		key := c.FuncKey(ctor) + "#disabled-set"
-		var desc []string
-		for _, r := range regs {
-			loop := ""
-			if r.inLoop != "" {
-				loop = " for each of " + r.inLoop
-			}
-			desc = append(desc, fmt.Sprintf("[%s..%s]=%s%s", r.from, r.to, r.target, loop))
+		evs := c.regEvents(ctor, map[string]bool{"SetWordChars": true, "ClearWordChars": true}, 2, nil)
+		isParam := func(i int) func(ssa.Value) bool {
+			return func(v ssa.Value) bool { return i < len(ctor.Params) && v == ssa.Value(ctor.Params[i]) }
 		}
-		got := strings.Join(desc, "; ")
-		want1 := "[0..65535]=true; [13..13]=false; [10..10]=false; [elem..elem]=false for each of $1; [elem..elem]=false for each of $2"
-		want2 := strings.Replace(want1, "[13..13]=false; [10..10]=false", "[10..10]=false; [13..13]=false", 1)
-		clearFirst := false
-		for _, ci := range allCalls(ctor) {
-			if f := calleeObj(ci.Common()); f != nil && f.Name() == "ClearWordChars" {
-				clearFirst = len(regs) > 0 && instrDominates(ci, regs[0].call)
+		target := func(ev regEvent) string {
+			if k, ok := ev.resolve(stripConv(ev.args[2])).(*ssa.Const); ok && k.Value != nil {
+				return k.Value.String()
+			}
+			return "?"
+		}
+		final, why := c.foldCsvRegs(evs, isParam(0), isParam(1), target)
+		clearFirst := true
+		want := map[string]string{"CR": "false", "LF": "false", "sep": "false", "quote": "false", "other": "true"}
+		var diffs []string
+		for _, cl := range []string{"CR", "LF", "sep", "quote", "other"} {
+			if final != nil && final[cl] != want[cl] {
+				diffs = append(diffs, fmt.Sprintf("%s word character: %s (expected %s)", cl, final[cl], want[cl]))
 			}
 		}
-		if (got == want1 || got == want2) && clearFirst {
-			o.ok(key, c.Pos(ctor.Pos()), got)
-		} else {
-			o.bad(key, c.Pos(ctor.Pos()), "the CSV word state enables/disables {"+got+"}; it must enable everything and then disable exactly CR, LF, the separators and the quotes — the same set AssignStates routes away from the word state")
+		switch {
+		case why != "":
+			o.undecided(key, c.Pos(ctor.Pos()), "NewCsvWordState contains "+why)
+		case len(diffs) > 0 || !clearFirst:
+			o.bad(key, c.Pos(ctor.Pos()), "folding the CSV word state's registrations (cleared first: "+fmt.Sprint(clearFirst)+") gives "+strings.Join(diffs, ", ")+"; it must enable everything and then disable exactly CR, LF, the separators and the quotes — the same set AssignStates routes away from the word state")
+		default:
+			o.ok(key, c.Pos(ctor.Pos()), fmt.Sprintf("%d registration(s) fold to: everything is a word character except CR, LF, the separators and the quotes", len(evs)))
 		}
 	}
 	// (c) setters
@@ -208,18 +432,17 @@ func ruleCsvRoute(c *Ctx) []*Obligation {
 		ctor := c.MustFunc("csv", "", "NewCsvSymbolState")
 		eol, _ := c.constByName("tokenizers", "Eol")
 		got := map[string]bool{}
-		for _, ci := range allCalls(ctor) {
-			f := calleeObj(ci.Common())
-			if f == nil || f.Name() != "Add" {
+		for _, ev := range c.regEvents(ctor, map[string]bool{"Add": true}, 2, nil) {
+			if len(ev.args) < 2 {
 				continue
 			}
-			args := callArgs(ci.Common())
-			s, isS := constString(args[0])
-			k, isK := constInt(args[1])
-			if isS && isK && k == eol {
-				got[s] = true
-			} else if isS {
-				got[s+"(wrong type)"] = true
+			k, isK := constInt(ev.resolve(ev.args[1]))
+			for _, s := range c.stringsOf(ev, ev.args[0], 4) {
+				if isK && k == eol {
+					got[s] = true
+				} else {
+					got[s+"(wrong type)"] = true
+				}
 			}
 		}
 		var miss []string
@@ -260,4 +483,50 @@ func ruleCsvRoute(c *Ctx) []*Obligation {
 		o.check(good, key, c.Pos(fn.Pos()), "a plain Symbol token is built only for a character that is neither CR nor LF; line breaks go through the symbol tree", "the single-character fast path can return a CR or LF as a plain Symbol token: the line ending is not recognised as (one) Eol token")
 	}
 	return o.list
+}
+
+// stringsOf: the string constants a string-valued registration argument can stand for (a constant, an
+// element of a slice literal of constants, a phi of those); nil when unknown.
+func (c *Ctx) stringsOf(e regEvent, v ssa.Value, depth int) []string {
+	if depth == 0 {
+		return nil
+	}
+	v = e.resolve(v)
+	if s, ok := constString(v); ok {
+		return []string{s}
+	}
+	switch x := v.(type) {
+	case *ssa.Phi:
+		var out []string
+		for _, ed := range x.Edges {
+			out = append(out, c.stringsOf(e, ed, depth-1)...)
+		}
+		return out
+	case *ssa.UnOp:
+		ia, ok := x.X.(*ssa.IndexAddr)
+		if !ok || x.Op != token.MUL {
+			return nil
+		}
+		coll := e.resolve(ia.X)
+		sl, ok := coll.(*ssa.Slice)
+		if !ok {
+			return nil
+		}
+		al, ok := sl.X.(*ssa.Alloc)
+		if !ok {
+			return nil
+		}
+		var out []string
+		for _, r := range *al.Referrers() {
+			if ia2, ok := r.(*ssa.IndexAddr); ok {
+				for _, r2 := range *ia2.Referrers() {
+					if st, ok := r2.(*ssa.Store); ok {
+						out = append(out, c.stringsOf(e, st.Val, depth-1)...)
+					}
+				}
+			}
+		}
+		return out
+	}
+	return nil
 }
